@@ -39,13 +39,14 @@ if a.save:
     os.makedirs(os.path.join(ROOT, "selftest", "results"), exist_ok=True)
     byprop = {}
     for m, r in res:
-        byprop.setdefault(m["prop"], []).append({"name": m["name"], "file": m["file"], "caught": r.startswith("exit=1"), "result": r[:400]})
+        byprop.setdefault(m["prop"], []).append(dict({"name": m["name"], "file": m["file"], "caught": r.startswith("exit=1"), "result": r[:400]},
+                                                     **({"note": m["note"], "as_expected": r.startswith("exit=%d" % m.get("expect", 1))} if m.get("note") else {})))
     for prop, lst in byprop.items():
         json.dump({"property": prop, "tier": a.tier, "repo_head": head, "mutants": lst, "caught": sum(x["caught"] for x in lst), "total": len(lst)},
                   open(os.path.join(ROOT, "selftest", "results", prop + ".json"), "w"), indent=1)
 bad = 0
 for m, r in res:
     caught = r.startswith("exit=1")
-    bad += not caught
+    bad += not (caught or (m.get("note") and r.startswith("exit=%d" % m.get("expect", 1))))
     print("%-4s %-45s %s  %s" % (m["prop"], m["name"], "CAUGHT" if caught else "MISSED", r))
 sys.exit(1 if bad else 0)
